@@ -113,6 +113,8 @@ def replay_merge(case, upto, recs=None):
                 m.reset()
             if recs is not None and recs[i]["impl"].name != "ok":
                 continue
+            if isinstance(item, dict) and item.get("fails"):
+                continue                # the case makes this load fail (fault plan): it contributes no response
             if isinstance(item, dict) and item.get("mutate"):
                 m.response(item["mutate"]["body"])
             else:
